@@ -27,6 +27,23 @@ def jobs(tier):
                     replace=[ISEXP], ghosts=[('unsigned int', 'g_len')], solver='cadical', timeout=300,
                     must_have=['postcondition', 'loop_invariant_step', 'loop_decreases', 'pointer_dereference'],
                     clause='operator scanner (with one-unit look-ahead) reads only inside the buffer, terminates, leaves the cursor <= end_offset'))
+    FN_NEXT = 'Finder__Tags_List__char_char_unsigned_int_Next'
+    nxt = dict(obj_buffers=[('o_self.content_', 'o_self.length_', 'char')], requires=['__CPROVER_is_fresh(self, sizeof(*self))', '__CPROVER_is_fresh(self->content_, self->length_)', 'self->offset_ <= self->length_',
+                         'self->length_ <= 0x7fffffffu'],
+               ensures=['self->offset_ <= self->length_', 'self->match_ <= 11', 'self->offset_ >= __CPROVER_old(self->offset_)',
+                        '(__CPROVER_old(self->offset_) < self->length_) ==> self->offset_ > __CPROVER_old(self->offset_)'],
+               assigns=['self->offset_', 'self->match_'],
+               loops={0: dict(invariant=['self->offset_ <= self->length_', 'self->match_ == 0', 'self->offset_ >= __CPROVER_loop_entry(self->offset_)'],
+                              decreases='self->length_ - self->offset_', assigns='self->offset_, self->match_'),
+                      1: dict(invariant=['id < group_count', 'self->offset_ == start_offset', 'self->match_ == 0'],
+                              decreases='group_count - id', assigns='id, self->offset_, self->match_'),
+                      2: dict(invariant=['start_offset <= self->offset_ && self->offset_ <= word_end_offset', 'word_offset == self->offset_ - start_offset',
+                                         'word_end_offset < self->length_'],
+                              decreases='word_end_offset - self->offset_', assigns='self->offset_, word_offset')})
+    out.append(dict(name='Finder::Next.memory-safety', unit=UNIT, fn=FN_NEXT, roots=['Qentem::Finder<Qentem::Tags::List<char>, char, unsigned int>::Next'],
+                    specs={FN_NEXT: nxt}, solver='cadical', timeout=600, objbits=10, split=8,
+                    must_have=['postcondition', 'loop_invariant_step', 'loop_decreases', 'pointer_dereference'],
+                    clause='tag-word matcher reads only [content, content+length) and inside the word tables, always advances, terminates, reports a match id within the table'))
     for j in arith_jobs():
         if j['name'] in ('evaluateExpression.Division', 'evaluateExpression.Remainder'):
             j = dict(j)
